@@ -17,7 +17,7 @@ from . import c11
 PROP = "C09"
 RULE = ("Hypothesis draws a construction path (direct construction like the parsers / Surface Evolver dump written by "
         "the independent serialiser and parsed / WKT text parsed / Voronoi tessellation of random centres / shipped "
-        "skeleton images, synthetic skeleton rasters) and then an operation sequence of up to 6 steps from "
+        "skeleton images, synthetic skeleton rasters; the lattice of a Skeleton object also requested a second time) and then an operation sequence of up to 6 steps from "
         "{generate_mesh(ne 2..12, replace_short_edges on/off), Frame construction (also repeated), gc.collect()}; "
         "after construction and after every step all back references are recomputed from scratch by object identity "
         "and compared. Non-trivial = sequence contains an editing step that removed or merged a vertex; distinct = "
@@ -56,10 +56,12 @@ def params(draw, tier):
     elif src == "skeleton":
         p["image"] = draw(st.sampled_from(["test_nonzero.tif", "experimental/exp_1.tif"]))
         p["mirror_y"] = draw(st.booleans())
+        p["twice"] = draw(st.booleans())       # create_lattice called a second time on the same Skeleton object
     else:
         p["rseed"] = draw(st.integers(0, 2 ** 32 - 1))
         p["ncells"] = draw(st.integers(4, 14))
         p["sym"] = draw(st.integers(0, 7))
+        p["twice"] = draw(st.booleans())
     p["ops"] = draw(st.lists(OPS, min_size=1, max_size=6))
     return p
 
@@ -109,7 +111,10 @@ def construct(p, tmpdir):
         v, e, c = call(fs.tessellation.create_lattice_elements, pts, max_distance=10.0 * side)
         return call(fs.tessellation.create_lattice, v, e, c)
     if src == "skeleton":
-        return fixtures.skeleton_mesh(p["image"], mirror_y=p["mirror_y"], resample=False)
+        sk = call(fs.skeleton.Skeleton, os.path.join(fixtures.DATA, p["image"]), mirror_y=p["mirror_y"])
+        if p.get("twice"):
+            call(sk.create_lattice)
+        return call(sk.create_lattice)
     # synthetic raster
     from .. import raster
     img = raster.make_image(p["rseed"], p["ncells"])
@@ -119,6 +124,8 @@ def construct(p, tmpdir):
     fn = os.path.join(tmpdir, "s.tif")
     raster.save(arr, fn)
     sk = call(fs.skeleton.Skeleton, fn)
+    if p.get("twice"):
+        call(sk.create_lattice)
     return call(sk.create_lattice)
 
 
